@@ -30,6 +30,8 @@ func init() {
 			"--set / --set-json / --set-string with expressions A,B of the same flag in the orders (A,B), (A,B,A), (A,A,B) x every pair of trees; reference applies occurrences in the order given. " +
 			"one values file holding the two trees as YAML documents (orders (A,B), (A,B,A)). table primitives: CoalesceTables and MergeTables on every ordered pair of the 35+1 thorough-family trees. " +
 			"a winning null that sits on a key of the observed chart's own values.yaml must leave no key behind (checked on the raw values in every scope). " +
+			"indexed paths through Options.MergeValues: a list of 2 scalars or 2 maps at a or b.a defined by {nobody, chart defaults, -f, --set-json object, --set-json key=json, --set, --set-string} x an indexed expression " +
+			"(a[0]=, a[1]=, a[2]=, a[3]=, a[1].k=, a[0].n=, a[2].k=) of --set-json / --set / --set-string / --set-file / --set-literal of the same or higher precedence; reference = setAt in place on the lower layers. " +
 			"no-mutation: deep snapshots of all chart Values and of the caller's map around ToRenderValues (every layering case) and CoalesceValues / chartutil.MergeValues (cases of <=2 sources), and again after overwriting every node of each result",
 		Run:    run,
 		Replay: replay,
@@ -50,17 +52,19 @@ func init() {
 			"mapmerge:nested-earlier-map-later-scalar", "mapmerge:nested-earlier-map-later-list", "mapmerge:nested-earlier-map-later-null", "mapmerge:nested-earlier-scalar-later-map",
 			"saw-multi-document-values-file", "tables:null-over-map", "tables:null-over-scalar", "tables:merge-keeps-null",
 			"saw-repeated-file-path-decides", "saw-repeated-flag-expression-decides", "saw-same-flag-twice-later-wins",
-			"set:mixed-case-bool", "set:one-letter-stays-string", "set:escaped-key", "set:index-extends-list", "set:typed-int", "set:typed-null", "set:leading-zero-string", "set:error-on-other-kind", "set:siblings-kept",
+			"indexed:replace-element-in-lower-layer-list", "indexed:key-inside-element-in-lower-layer-list", "indexed:append-at-len-in-lower-layer-list", "indexed:beyond-len-in-lower-layer-list",
+			"indexed:set-file-into-lower-layer-list", "set:mixed-case-bool", "set:one-letter-stays-string", "set:escaped-key", "set:index-extends-list", "set:typed-int", "set:typed-null", "set:leading-zero-string", "set:error-on-other-kind", "set:siblings-kept",
 		},
 	})
 }
 
 type replayData struct {
-	Mode   string      `json:"mode"` // layer | set
-	Class  string      `json:"class"`
-	Layer  *layerCase  `json:"layer,omitempty"`
-	Set    *setCase    `json:"set,omitempty"`
-	Tables *tablesCase `json:"tables,omitempty"`
+	Mode    string      `json:"mode"` // layer | set
+	Class   string      `json:"class"`
+	Layer   *layerCase  `json:"layer,omitempty"`
+	Set     *setCase    `json:"set,omitempty"`
+	Tables  *tablesCase `json:"tables,omitempty"`
+	Indexed *idxCase    `json:"indexed,omitempty"`
 }
 
 func replay(_ *core.Ctx, data json.RawMessage) []core.Violation {
@@ -79,6 +83,15 @@ func replay(_ *core.Ctx, data json.RawMessage) []core.Violation {
 		fails, _ := execLayer(w, *rd.Layer)
 		for _, f := range fails {
 			out = append(out, core.Violation{Property: prop, Key: layerKey(*rd.Layer, f), What: f.What, Replay: data})
+		}
+	case "indexed":
+		w, err := newWork()
+		if err != nil {
+			return nil
+		}
+		defer w.close()
+		if f, _ := execIndexed(w, *rd.Indexed); f != nil {
+			out = append(out, core.Violation{Property: prop, Key: indexedKey(*rd.Indexed, f), What: f.What, Replay: data})
 		}
 	case "tables":
 		if f, _ := execTables(*rd.Tables); f != nil {
@@ -117,6 +130,15 @@ func run(c *core.Ctx) {
 	}
 	if c.Only == "" || c.Only == "tables" {
 		runTables(c)
+	}
+	if c.Only == "" || c.Only == "indexed" {
+		w, err := newWork()
+		if err != nil {
+			c.NotExhaustive("cannot create scratch directory: %v", err)
+			return
+		}
+		defer w.close()
+		runIndexed(c, w)
 	}
 	t1 := time.Now()
 	if c.Only == "" || c.Only == "set" {
